@@ -1,5 +1,5 @@
 From Coq Require Import Permutation.
-From Verif Require Import Lib.Base Abci.Mux Abci.MuxProofs.
+From Verif Require Import Lib.Base Abci.Mux Abci.MuxProofs Gen.MuxSorts Abci.MapOrder Abci.MapOrderProofs.
 
 (* C01 -- replicas compute identical state and results for identical blocks.
    All statements are about the generic multiplexer model Verif.Abci.Mux, for every
@@ -131,3 +131,56 @@ Theorem stale_rounds_harmless :
     \/ collision.
 Proof. exact MuxProofs.stale_rounds_harmless. Qed.
 Print Assumptions stale_rounds_harmless.
+
+(* Block functions that iterate Go maps (RuntimesToFinalize, the stake-ordered entity slice
+   and the MaxValidators cutoff of the validator election, the reward address list, the
+   signing-reward eligible entities) give the same result for EVERY iteration order of the
+   map -- because the model sorts exactly where harness/cmd/gen muxsorts finds the code
+   sorting (Gen/MuxSorts.v); a removed or guarded sort makes this unprovable. *)
+Theorem map_order_irrelevant :
+  forall (shuffle : list bytes -> list bytes) (balance : bytes -> N),
+    (forall iter1 iter2, NoDup iter1 -> Permutation iter1 iter2 ->
+       runtimes_to_finalize iter1 = runtimes_to_finalize iter2) /\
+    (forall bypass maxv iter1 iter2, NoDup iter1 -> Permutation iter1 iter2 ->
+       stake_slice shuffle balance bypass iter1 = stake_slice shuffle balance bypass iter2 /\
+       elected shuffle balance bypass maxv iter1 = elected shuffle balance bypass maxv iter2) /\
+    (forall iter1 iter2, NoDup iter1 -> Permutation iter1 iter2 ->
+       reward_order iter1 = reward_order iter2) /\
+    (forall total num den (iter1 iter2 : list (bytes * N)), NoDup (map fst iter1) -> Permutation iter1 iter2 ->
+       eligible_entities total num den iter1 = eligible_entities total num den iter2).
+Proof. exact MapOrderProofs.map_order_irrelevant. Qed.
+Print Assumptions map_order_irrelevant.
+
+(* ... lifted to whole blocks of a concrete ledger instance of the multiplexer signature. *)
+Theorem map_order_irrelevant_block :
+  forall (iter1 iter2 : list bytes) (cfg1 cfg2 : localcfg) (proposing : bool) (s : sg_state ledger) (b : block),
+    NoDup iter1 -> Permutation iter1 iter2 ->
+    exec_block ledger cfg1 (sort_by (a_name ledger) (ledger_apps iter1)) proposing s b
+    = exec_block ledger cfg2 (sort_by (a_name ledger) (ledger_apps iter2)) proposing s b.
+Proof. exact MapOrderProofs.map_order_irrelevant_block. Qed.
+Print Assumptions map_order_irrelevant_block.
+
+(* With a sort that is only conditional the election result depends on the map order (witness). *)
+Theorem unsorted_map_order_matters_refuted :
+  exists (shuffle : list bytes -> list bytes) (balance : bytes -> N) iter1 iter2,
+    NoDup iter1 /\ Permutation iter1 iter2 /\
+    firstn 1 (let sh := shuffle (collect_sorted SortConditional false iter1) in stable_desc balance sh)
+    <> firstn 1 (let sh := shuffle (collect_sorted SortConditional false iter2) in stable_desc balance sh).
+Proof. exact MapOrderProofs.unsorted_map_order_matters_refuted. Qed.
+Print Assumptions unsorted_map_order_matters_refuted.
+
+(* replicas_agree for histories that also contain failed consensus rounds (OpStale: own
+   proposals prepared, foreign proposals processed, never committed), each replica with its
+   own; the step conditions (ops_ok_from) are honest metadata, the commit-info hypothesis at
+   every reuse, and non-empty block hashes. *)
+Theorem replicas_agree_with_failed_rounds :
+  forall (S : msig) (base : list (app S)) (n1 n2 : node S) (ops1 ops2 : list (op S)),
+    NoDup (map (a_name S) base) ->
+    Permutation base (n_apps S n1) -> Permutation base (n_apps S n2) ->
+    n_cache S n1 = None -> n_cache S n2 = None ->
+    n_committed S n1 = n_committed S n2 ->
+    ops_ok_from S base n1 ops1 -> ops_ok_from S base n2 ops2 ->
+    blocks_of S ops1 = blocks_of S ops2 ->
+    observe S (run S n1 ops1) = observe S (run S n2 ops2) \/ collision.
+Proof. exact MuxProofs.replicas_agree_with_failed_rounds. Qed.
+Print Assumptions replicas_agree_with_failed_rounds.
